@@ -34,13 +34,31 @@ package main
 //	             receiver methods that have a result and no pointer parameter,
 //	             binary.BigEndian.Uint64(d[0:8] | d[8:16]) (also (*d)[a:b])
 //
-// Functions: one unnamed result, or no result and exactly one thing written
+//	loops        for i := A; i < B; i++ (also <=; > / >= with i--; i += 1; and
+//	             `for i := range N`) with integer literal bounds: translated to
+//	             a fold over List.range n whose state is the tuple of the outer
+//	             variables assigned in the body, preceded by an `Option result`
+//	             when the body returns and a Bool when it breaks (the remaining
+//	             iterations are then skipped); `continue` is supported; the
+//	             body must not panic nor assign the loop variable.  A shift by
+//	             an int expression over literals and loop variables (+, -) that
+//	             is provably non-negative needs no panic guard.
+//	more         x++ / x--; a, b := e1, e2; a, b = e1, e2; a, b := f(..) for a
+//	             translated f with several results; tagless `switch { case c: }`;
+//	             == / != on Label and Wire values
+//
+// Functions: one or more results (named results start at their zero value, a
+// bare return returns them; several results become a tuple), optionally followed
+// by an `error` result: then the Lean value is an Option, `return .., nil` is
+// `some ..` and `return .., fmt.Errorf(..) / errors.New(..)` is `none`; or no
+// result and exactly one thing written
 // through a pointer (the *Label receiver, or else the *LabelData parameter),
 // which then is the value of the Lean definition.  A function WITH a result
 // may use *LabelData parameters as scratch: their final content is dropped
 // (noted in the generated file) and such a function cannot be called from
 // another translated function.  A function that can panic gets result type
-// Option T (none = panic).  Shadowing / redeclaration of variables is rejected.
+// Option T (none = panic); panic and error result together are rejected.
+// Shadowing / redeclaration of variables is rejected.
 
 import (
 	"crypto/sha256"
@@ -94,6 +112,10 @@ var targets = []target{
 	{"circuit", "", "decrypt"},
 	{"circuit", "", "encryptHalf"},
 	{"circuit", "", "LabelForBit"},
+	{"circuit", "", "BitFromLabel"},
+	{"ot", "", "clmul64"},
+	{"ot", "", "mul128Generic"},
+	{"circuit", "", "bitLen"},
 }
 
 // Type declarations the representation depends on (normalised text).
@@ -121,6 +143,7 @@ const (
 	tWire
 	tData
 	tCipher
+	tTuple
 )
 
 func (t ty) lean() string {
@@ -145,7 +168,7 @@ func (t ty) lean() string {
 
 func (t ty) String() string {
 	return [...]string{"(none)", "untyped constant", "uint64", "uint32", "int", "uint", "bool", "Label", "Wire",
-		"*LabelData", "cipher.Block"}[t]
+		"*LabelData", "cipher.Block", "(multiple results)"}[t]
 }
 
 func (t ty) width() int {
@@ -189,7 +212,27 @@ type nLeaf struct {
 	final bool // value of the whole function (wrapped in `some` when the function can panic)
 }
 
-type nPanic struct{}
+type nPanic struct{} // `none`: panic, or the error result
+
+// nLoop: let tmp : styp := (List.range n).foldl (fun st k => [if st.1.isSome then st else] pre; body) init; after
+type nLoop struct {
+	tmp, styp string
+	n         int64
+	st, k     string
+	hasRet    bool
+	skip      string // iterations are skipped once this holds (returned / broken)
+	nelem     int
+	pre       [][3]string
+	body      node
+	init      string
+	after     node
+}
+
+// nMatch: Option.elim scrut b (fun v => a)   (= match scrut with | some v => a | none => b)
+type nMatch struct {
+	scrut, v string
+	a, b     node
+}
 
 // ----------------------------------------------------------------- packages
 
@@ -321,7 +364,10 @@ type fn struct {
 	params   []param
 	recvPtr  bool
 	hasRecv  bool
-	result   ty
+	result   ty   // tNone, the single result type, or tTuple
+	results  []ty // result types without a trailing `error`
+	resNames []string
+	errRes   bool // last result is `error`: the Lean value is an Option, none = error
 	outVar   string
 	hasPanic bool
 	scratch  []string
@@ -495,6 +541,14 @@ type tr struct {
 	pending  []string
 	nj       int
 	imports  map[string]string
+	loops    []*loopCtx
+	ranges   map[string][2]int64 // loop variables: value interval
+}
+
+type loopCtx struct {
+	vars   []string // outer variables assigned in the body (the fold state)
+	hasRet bool     // the body returns: state gets an `Option result`
+	hasBrk bool     // the body breaks: state gets a Bool
 }
 
 func (t *tr) fail(pos token.Pos, format string, a ...interface{}) {
@@ -597,6 +651,7 @@ func (t *tr) run() {
 	t.assigned = map[string]bool{}
 	t.mutated = map[string]bool{}
 	t.imports = map[string]string{}
+	t.ranges = map[string][2]int64{}
 	for _, im := range f.file.Imports {
 		path := strings.Trim(im.Path.Value, "\"`")
 		name := path[strings.LastIndex(path, "/")+1:]
@@ -653,16 +708,43 @@ func (t *tr) run() {
 	}
 	f.result = tNone
 	if r := d.Type.Results; r != nil && len(r.List) > 0 {
-		if len(r.List) != 1 || len(r.List[0].Names) != 0 {
-			t.fail(r.Pos(), "unsupported result list (exactly one unnamed result is supported)")
+		fields := r.List
+		last := fields[len(fields)-1]
+		if id, ok := last.Type.(*ast.Ident); ok && id.Name == "error" {
+			if len(last.Names) != 0 {
+				t.fail(last.Pos(), "unsupported named error result")
+			}
+			f.errRes = true
+			fields = fields[:len(fields)-1]
 		}
-		rt, ptr := t.typeExpr(r.List[0].Type)
-		if ptr || rt == tCipher || rt == tData {
-			t.fail(r.Pos(), "unsupported result type")
+		if len(fields) == 0 {
+			t.fail(r.Pos(), "unsupported result list (only an error)")
 		}
-		f.result = rt
+		for _, fld := range fields {
+			rt, ptr := t.typeExpr(fld.Type)
+			if ptr || rt == tCipher || rt == tData {
+				t.fail(fld.Pos(), "unsupported result type")
+			}
+			if len(fld.Names) == 0 {
+				f.results = append(f.results, rt)
+			}
+			for _, n := range fld.Names {
+				f.results = append(f.results, rt)
+				f.resNames = append(f.resNames, n.Name)
+			}
+		}
+		if len(f.resNames) != 0 && len(f.resNames) != len(f.results) {
+			t.fail(r.Pos(), "unsupported mix of named and unnamed results")
+		}
+		f.result = f.results[0]
+		if len(f.results) > 1 {
+			f.result = tTuple
+		}
 		if f.recvPtr {
 			t.fail(r.Pos(), "unsupported: pointer receiver method with a result")
+		}
+		for i, n := range f.resNames {
+			t.declare(r.Pos(), n, f.results[i])
 		}
 	} else {
 		// the value of the Lean definition is the thing written through a pointer
@@ -683,6 +765,13 @@ func (t *tr) run() {
 		}
 	}
 	f.body = t.seq(d.Body.List, func() node { return t.fallOff(d.Body.Rbrace) })
+	for i := len(f.resNames) - 1; i >= 0; i-- {
+		// named results start at their zero value
+		f.body = nLet{leanVar(f.resNames[i]), f.results[i].lean(), zero(f.results[i]), f.body}
+	}
+	if f.hasPanic && f.errRes {
+		t.fail(d.Pos(), "unsupported: function that can both panic and return an error")
+	}
 	// which pointer targets were written?
 	var mut []string
 	for v := range t.mutated {
@@ -700,6 +789,101 @@ func (t *tr) run() {
 			f.scratch = append(f.scratch, v)
 		}
 	}
+}
+
+func tupleOf(parts []string) string {
+	if len(parts) == 1 {
+		return parts[0]
+	}
+	return "(" + strings.Join(parts, ", ") + ")"
+}
+
+func (f *fn) resultLean() string {
+	var ps []string
+	for _, r := range f.results {
+		ps = append(ps, r.lean())
+	}
+	return strings.Join(ps, " × ")
+}
+
+// loopState renders the fold state of loop lc: [Option result,] [broken,] vars...
+func (t *tr) loopState(lc *loopCtx, ret, brk string) string {
+	var ps []string
+	if lc.hasRet {
+		ps = append(ps, ret)
+	}
+	if lc.hasBrk {
+		ps = append(ps, brk)
+	}
+	for _, v := range lc.vars {
+		ps = append(ps, leanVar(v))
+	}
+	if len(ps) == 0 {
+		return "()"
+	}
+	return tupleOf(ps)
+}
+
+// retLeaf: the function returns val (inside a loop body: the fold state records it).
+func (t *tr) retLeaf(val string) node {
+	if n := len(t.loops); n > 0 {
+		lc := t.loops[n-1]
+		lc.hasRet = true
+		return nLeaf{t.loopState(lc, "some "+paren(val), "false"), false}
+	}
+	return nLeaf{val, true}
+}
+
+// isErrorValue recognises fmt.Errorf(...) / errors.New(...): a non-nil error.
+func (t *tr) isErrorValue(e ast.Expr) bool {
+	c, ok := e.(*ast.CallExpr)
+	if !ok {
+		return false
+	}
+	sel, ok := c.Fun.(*ast.SelectorExpr)
+	if !ok {
+		return false
+	}
+	x, ok := sel.X.(*ast.Ident)
+	if !ok {
+		return false
+	}
+	if _, isVar := t.env[x.Name]; isVar {
+		return false
+	}
+	path := t.imports[x.Name]
+	return (path == "fmt" && sel.Sel.Name == "Errorf") || (path == "errors" && sel.Sel.Name == "New")
+}
+
+// interval bounds an int expression built from literals, loop variables, + and -.
+func (t *tr) interval(e ast.Expr) (lo, hi int64, ok bool) {
+	switch e := e.(type) {
+	case *ast.ParenExpr:
+		return t.interval(e.X)
+	case *ast.BasicLit:
+		if e.Kind == token.INT {
+			v, good := new(big.Int).SetString(e.Value, 0)
+			if good && v.IsInt64() && v.Int64() < 1<<40 {
+				return v.Int64(), v.Int64(), true
+			}
+		}
+	case *ast.Ident:
+		if r, is := t.ranges[e.Name]; is {
+			return r[0], r[1], true
+		}
+	case *ast.BinaryExpr:
+		a0, a1, ok1 := t.interval(e.X)
+		b0, b1, ok2 := t.interval(e.Y)
+		if ok1 && ok2 {
+			switch e.Op {
+			case token.ADD:
+				return a0 + b0, a1 + b1, true
+			case token.SUB:
+				return a0 - b1, a1 - b0, true
+			}
+		}
+	}
+	return 0, 0, false
 }
 
 func (t *tr) fallOff(pos token.Pos) node {
@@ -856,7 +1040,7 @@ func (t *tr) seq(list []ast.Stmt, tail func() node) node {
 
 	case *ast.AssignStmt:
 		if len(s.Lhs) != 1 || len(s.Rhs) != 1 {
-			t.unsupported(s, "multiple assignment")
+			return t.multiAssign(s, func() node { return t.seq(rest, tail) })
 		}
 		lhs, rhs := s.Lhs[0], s.Rhs[0]
 		if s.Tok == token.DEFINE {
@@ -955,13 +1139,84 @@ func (t *tr) seq(list []ast.Stmt, tail func() node) node {
 			if len(s.Results) != 0 {
 				t.unsupported(s, "return with a value in a function without result")
 			}
+			if len(t.loops) > 0 {
+				t.unsupported(s, "return inside a loop of a function without result")
+			}
 			return nLeaf{leanVar(t.f.outVar), true}
 		}
-		if len(s.Results) != 1 {
-			t.unsupported(s, "return")
+		results := s.Results
+		if t.f.errRes {
+			if len(results) == 0 {
+				t.unsupported(s, "bare return in a function with an error result")
+			}
+			e := results[len(results)-1]
+			results = results[:len(results)-1]
+			if id, ok := e.(*ast.Ident); !ok || id.Name != "nil" || t.env["nil"] != tNone {
+				if !t.isErrorValue(e) {
+					t.unsupported(e, "error value (only nil, fmt.Errorf(..), errors.New(..))")
+				}
+				if len(t.loops) > 0 {
+					t.unsupported(s, "error return inside a loop")
+				}
+				t.pending = nil
+				return nPanic{}
+			}
 		}
-		val := t.typed(s.Results[0], t.f.result)
-		return guard(t.takePending(), nLeaf{val, true}, t)
+		var parts []string
+		switch {
+		case len(results) == 0 && len(t.f.resNames) > 0 && !t.f.errRes:
+			for _, n := range t.f.resNames {
+				parts = append(parts, leanVar(n))
+			}
+		case len(results) == len(t.f.results):
+			for i, r := range results {
+				parts = append(parts, t.typed(r, t.f.results[i]))
+			}
+		default:
+			t.unsupported(s, "return (number of values)")
+		}
+		return guard(t.takePending(), t.retLeaf(tupleOf(parts)), t)
+
+	case *ast.IncDecStmt:
+		op := token.ADD_ASSIGN
+		if s.Tok == token.DEC {
+			op = token.SUB_ASSIGN
+		}
+		as := &ast.AssignStmt{Lhs: []ast.Expr{s.X}, TokPos: s.TokPos, Tok: op,
+			Rhs: []ast.Expr{&ast.BasicLit{ValuePos: s.TokPos, Kind: token.INT, Value: "1"}}}
+		return t.seq(append([]ast.Stmt{as}, rest...), tail)
+
+	case *ast.BranchStmt:
+		if s.Tok == token.CONTINUE && s.Label == nil && len(t.loops) > 0 {
+			t.escaped = true
+			lc := t.loops[len(t.loops)-1]
+			return nLeaf{t.loopState(lc, "none", "false"), false}
+		}
+		if s.Tok == token.BREAK && s.Label == nil && len(t.loops) > 0 {
+			t.escaped = true
+			lc := t.loops[len(t.loops)-1]
+			lc.hasBrk = true
+			return nLeaf{t.loopState(lc, "none", "true"), false}
+		}
+		t.unsupported(s, "branch statement")
+
+	case *ast.ForStmt:
+		return t.forLoop(s, func() node { return t.seq(rest, tail) })
+
+	case *ast.RangeStmt:
+		// for i := range N  ==  for i := 0; i < N; i++
+		key, ok := s.Key.(*ast.Ident)
+		lim, ok2 := s.X.(*ast.BasicLit)
+		if !ok || !ok2 || s.Value != nil || s.Tok != token.DEFINE || lim.Kind != token.INT {
+			t.unsupported(s, "range statement (only `for i := range <integer literal>`)")
+		}
+		fs := &ast.ForStmt{For: s.For,
+			Init: &ast.AssignStmt{Lhs: []ast.Expr{key}, TokPos: s.TokPos, Tok: token.DEFINE,
+				Rhs: []ast.Expr{&ast.BasicLit{ValuePos: s.TokPos, Kind: token.INT, Value: "0"}}},
+			Cond: &ast.BinaryExpr{X: key, OpPos: s.TokPos, Op: token.LSS, Y: lim},
+			Post: &ast.IncDecStmt{X: key, TokPos: s.TokPos, Tok: token.INC},
+			Body: s.Body}
+		return t.forLoop(fs, func() node { return t.seq(rest, tail) })
 
 	case *ast.SwitchStmt:
 		return t.seq(append([]ast.Stmt{t.desugarSwitch(s)}, rest...), tail)
@@ -1051,12 +1306,16 @@ func (t *tr) desugarSwitch(s *ast.SwitchStmt) ast.Stmt {
 	if s.Init != nil {
 		t.unsupported(s.Init, "switch with init clause")
 	}
-	tag, ok := s.Tag.(*ast.Ident)
-	if !ok {
-		t.unsupported(s, "switch without a plain variable tag")
-	}
-	if _, isVar := t.env[tag.Name]; !isVar {
-		t.unsupported(s, "switch tag that is not a local variable")
+	var tag *ast.Ident
+	if s.Tag != nil {
+		var ok bool
+		tag, ok = s.Tag.(*ast.Ident)
+		if !ok {
+			t.unsupported(s, "switch tag that is not a plain variable")
+		}
+		if _, isVar := t.env[tag.Name]; !isVar {
+			t.unsupported(s, "switch tag that is not a local variable")
+		}
 	}
 	var def *ast.CaseClause
 	var cases []*ast.CaseClause
@@ -1081,10 +1340,13 @@ func (t *tr) desugarSwitch(s *ast.SwitchStmt) ast.Stmt {
 		cc := cases[i]
 		var cond ast.Expr
 		for _, v := range cc.List {
-			if _, isLit := v.(*ast.BasicLit); !isLit {
-				t.unsupported(v, "non-literal case value")
+			var eq ast.Expr = v // tagless switch: the case expression is the condition
+			if tag != nil {
+				if _, isLit := v.(*ast.BasicLit); !isLit {
+					t.unsupported(v, "non-literal case value")
+				}
+				eq = &ast.BinaryExpr{X: tag, OpPos: v.Pos(), Op: token.EQL, Y: v}
 			}
-			eq := &ast.BinaryExpr{X: tag, OpPos: v.Pos(), Op: token.EQL, Y: v}
 			if cond == nil {
 				cond = eq
 			} else {
@@ -1382,7 +1644,7 @@ func (t *tr) binary(e *ast.BinaryExpr, hint ty) (string, ty) {
 			if !ct.isInt() {
 				t.unsupported(e.Y, "shift count")
 			}
-			if ct == tInt {
+			if lo, _, known := t.interval(e.Y); ct == tInt && !(known && lo >= 0) {
 				// Go: a negative shift count panics at run time
 				t.pending = append(t.pending, fmt.Sprintf("BitVec.slt %s 0#64", paren(cs)))
 			}
@@ -1419,7 +1681,7 @@ func (t *tr) binary(e *ast.BinaryExpr, hint ty) (string, ty) {
 
 	case token.EQL, token.NEQ:
 		ls, rs, ot := t.operands(e, tNone)
-		if !ot.isInt() && ot != tBool {
+		if !ot.isInt() && ot != tBool && ot != tLabel && ot != tWire {
 			t.fail(e.Pos(), "unsupported comparison of %s values", ot)
 		}
 		if e.Op == token.EQL {
@@ -1654,10 +1916,22 @@ func (t *tr) callExpr(c *ast.CallExpr, hint ty) (string, ty) {
 		v, lo, hi := t.dataSlice(c.Args[0])
 		return t.half(c.Args[0], v, lo, hi), tU64
 	}
+	call, callee := t.targetCall(c)
+	if callee.result == tTuple {
+		t.fail(c.Pos(), "call of %s (multiple results) in single-value position", callee.tgt)
+	}
+	return call, callee.result
+}
+
+// targetCall: a call of a translated function that produces a value.
+func (t *tr) targetCall(c *ast.CallExpr) (string, *fn) {
 	callee, recv := t.resolve(c)
 	t.useCallee(c, callee)
 	if callee.result == tNone {
 		t.fail(c.Pos(), "call of %s (no result) in expression position", callee.tgt)
+	}
+	if callee.errRes {
+		t.fail(c.Pos(), "unsupported call of %s, which returns an error", callee.tgt)
 	}
 	for _, p := range callee.params {
 		if p.ptr || p.t == tCipher {
@@ -1669,7 +1943,270 @@ func (t *tr) callExpr(c *ast.CallExpr, hint ty) (string, ty) {
 		parts = append(parts, paren(t.typed(recv, tLabel)))
 	}
 	parts = append(parts, t.args(c, callee)...)
-	return "(" + strings.Join(parts, " ") + ")", callee.result
+	return "(" + strings.Join(parts, " ") + ")", callee
+}
+
+// multiAssign: a, b := e1, e2 / a, b = e1, e2 / a, b := f(..) for a translated f with two or more results.
+func (t *tr) multiAssign(s *ast.AssignStmt, cont func() node) node {
+	if s.Tok != token.DEFINE && s.Tok != token.ASSIGN {
+		t.unsupported(s, "multiple assignment with operator")
+	}
+	var names []string
+	for _, l := range s.Lhs {
+		id, ok := l.(*ast.Ident)
+		if !ok {
+			t.unsupported(l, "target of a multiple assignment (only variables)")
+		}
+		names = append(names, id.Name)
+	}
+	type bnd struct{ name, typ, val string }
+	var first, second []bnd
+	var types []ty
+	t.nj++
+	tmp := fmt.Sprintf("m'%d", t.nj)
+	if len(s.Rhs) == 1 {
+		c, ok := s.Rhs[0].(*ast.CallExpr)
+		if !ok {
+			t.unsupported(s, "multiple assignment")
+		}
+		call, callee := t.targetCall(c)
+		if callee.result != tTuple || len(callee.results) != len(names) {
+			t.fail(s.Pos(), "assignment of %d results of %s to %d variables", len(callee.results), callee.tgt, len(names))
+		}
+		first = append(first, bnd{tmp, callee.resultLean(), call})
+		types = callee.results
+		for i := range names {
+			second = append(second, bnd{"", "", proj(tmp, i, len(names))})
+		}
+	} else if len(s.Rhs) == len(names) {
+		for i, r := range s.Rhs {
+			hint := tNone
+			if s.Tok == token.ASSIGN && names[i] != "_" {
+				hint = t.env[names[i]]
+			}
+			val, vt := t.expr(r, hint)
+			if vt == tUntyped {
+				val, vt = t.typed(r, tInt), tInt
+			}
+			if vt == tCipher || vt == tData || vt == tNone || vt == tTuple {
+				t.unsupported(r, "value in a multiple assignment")
+			}
+			types = append(types, vt)
+			ti := fmt.Sprintf("%s_%d", tmp, i)
+			first = append(first, bnd{ti, vt.lean(), val})
+			second = append(second, bnd{"", "", ti})
+		}
+	} else {
+		t.unsupported(s, "multiple assignment (number of values)")
+	}
+	conds := t.takePending()
+	var all []bnd
+	all = append(all, first...)
+	for i, n := range names {
+		if n == "_" {
+			continue
+		}
+		if s.Tok == token.DEFINE {
+			t.declare(s.Lhs[i].Pos(), n, types[i])
+		} else {
+			if vt, ok := t.env[n]; !ok || vt != types[i] {
+				t.fail(s.Lhs[i].Pos(), "type mismatch in multiple assignment to `%s`", n)
+			}
+			t.setVar(s.Lhs[i].Pos(), n)
+		}
+		all = append(all, bnd{leanVar(n), types[i].lean(), second[i].val})
+	}
+	var build func(i int) node
+	build = func(i int) node {
+		if i == len(all) {
+			return cont()
+		}
+		return nLet{all[i].name, all[i].typ, all[i].val, build(i + 1)}
+	}
+	return guard(conds, build(0), t)
+}
+
+// forLoop: `for i := A; i < B; i++` (also <=, and > / >= with i--) with literal
+// bounds becomes a fold over List.range n.  The fold state is the tuple of the
+// outer variables assigned in the body, preceded by an `Option result` when the
+// body contains a return (further iterations are then skipped).
+func (t *tr) forLoop(s *ast.ForStmt, cont func() node) node {
+	lit := func(e ast.Expr) int64 {
+		for {
+			p, ok := e.(*ast.ParenExpr)
+			if !ok {
+				break
+			}
+			e = p.X
+		}
+		l, ok := e.(*ast.BasicLit)
+		if !ok || l.Kind != token.INT {
+			t.unsupported(s, "loop bound that is not an integer literal")
+		}
+		v, good := new(big.Int).SetString(l.Value, 0)
+		if !good || !v.IsInt64() || v.Int64() < 0 || v.Int64() >= 1<<31 {
+			t.unsupported(s, "loop bound")
+		}
+		return v.Int64()
+	}
+	init, ok := s.Init.(*ast.AssignStmt)
+	if !ok || init.Tok != token.DEFINE || len(init.Lhs) != 1 || len(init.Rhs) != 1 {
+		t.unsupported(s, "loop (need `for i := A; i < B; i++` with literal bounds)")
+	}
+	ivId, ok := init.Lhs[0].(*ast.Ident)
+	if !ok {
+		t.unsupported(s, "loop variable")
+	}
+	iv := ivId.Name
+	A := lit(init.Rhs[0])
+	cond, ok := s.Cond.(*ast.BinaryExpr)
+	if !ok {
+		t.unsupported(s, "loop condition")
+	}
+	if x, ok := cond.X.(*ast.Ident); !ok || x.Name != iv {
+		t.unsupported(s, "loop condition (need `i OP literal`)")
+	}
+	B := lit(cond.Y)
+	up := false
+	switch p := s.Post.(type) {
+	case *ast.IncDecStmt:
+		if x, ok := p.X.(*ast.Ident); !ok || x.Name != iv {
+			t.unsupported(s, "loop post statement")
+		}
+		up = p.Tok == token.INC
+	case *ast.AssignStmt:
+		x, ok := p.Lhs[0].(*ast.Ident)
+		one, ok2 := p.Rhs[0].(*ast.BasicLit)
+		if len(p.Lhs) != 1 || !ok || x.Name != iv || !ok2 || one.Value != "1" ||
+			(p.Tok != token.ADD_ASSIGN && p.Tok != token.SUB_ASSIGN) {
+			t.unsupported(s, "loop post statement (need i++ / i-- / i += 1 / i -= 1)")
+		}
+		up = p.Tok == token.ADD_ASSIGN
+	default:
+		t.unsupported(s, "loop post statement")
+	}
+	var n, lo, hi int64
+	switch {
+	case up && cond.Op == token.LSS:
+		n = B - A
+	case up && cond.Op == token.LEQ:
+		n = B - A + 1
+	case !up && cond.Op == token.GTR:
+		n = A - B
+	case !up && cond.Op == token.GEQ:
+		n = A - B + 1
+	default:
+		t.unsupported(s, "loop whose condition and step do not fit (possibly non-terminating)")
+	}
+	if n < 0 {
+		n = 0
+	}
+	if n > 1<<16 {
+		t.unsupported(s, "loop with more than 65536 iterations")
+	}
+	lo, hi = A, A
+	if n > 0 {
+		if up {
+			hi = A + n - 1
+		} else {
+			lo = A - (n - 1)
+		}
+	}
+	sn := t.snap()
+	enter := func(lc *loopCtx) {
+		t.declare(ivId.Pos(), iv, tInt)
+		t.ranges[iv] = [2]int64{lo, hi}
+		t.loops = append(t.loops, lc)
+	}
+	leave := func() {
+		t.loops = t.loops[:len(t.loops)-1]
+		delete(t.ranges, iv)
+	}
+	// pass 1: what does the body assign, does it return?
+	probe := &loopCtx{}
+	escBefore, panicBefore := t.escaped, t.f.hasPanic
+	t.assigned = map[string]bool{}
+	enter(probe)
+	t.seq(s.Body.List, func() node { return nLeaf{"", false} })
+	leave()
+	if t.f.hasPanic && !panicBefore {
+		t.unsupported(s, "loop whose body can panic")
+	}
+	if t.assigned[iv] {
+		t.unsupported(s, "loop whose body assigns the loop variable")
+	}
+	lc := &loopCtx{hasRet: probe.hasRet, hasBrk: probe.hasBrk}
+	for _, v := range sn.order {
+		if t.assigned[v] {
+			lc.vars = append(lc.vars, v)
+		}
+	}
+	t.restore(sn)
+	if lc.hasRet && t.f.result == tNone {
+		t.unsupported(s, "return inside a loop of a function without result")
+	}
+	// pass 2
+	enter(lc)
+	body := t.seq(s.Body.List, func() node { return nLeaf{t.loopState(lc, "none", "false"), false} })
+	leave()
+	t.popScope(sn)
+	t.escaped = escBefore || lc.hasRet
+	for _, v := range lc.vars {
+		t.assigned[v] = true
+		t.mutated[v] = true
+	}
+	if len(lc.vars) == 0 && !lc.hasRet {
+		return cont() // a loop without any effect
+	}
+	var typs []string
+	if lc.hasRet {
+		typs = append(typs, "Option ("+t.f.resultLean()+")")
+	}
+	if lc.hasBrk {
+		typs = append(typs, "Bool")
+	}
+	for _, v := range lc.vars {
+		typs = append(typs, t.env[v].lean())
+	}
+	t.nj++
+	k := len(t.loops) + 1
+	l := nLoop{tmp: fmt.Sprintf("l'%d", t.nj), styp: strings.Join(typs, " × "), n: n,
+		st: fmt.Sprintf("st'%d", k), k: fmt.Sprintf("k'%d", k), hasRet: lc.hasRet, nelem: len(typs),
+		init: t.loopState(lc, "none", "false"), body: body}
+	off := 0
+	var skip []string
+	if lc.hasRet {
+		skip = append(skip, "("+proj(l.st, 0, len(typs))+").isSome")
+		off = 1
+	}
+	if lc.hasBrk {
+		skip = append(skip, proj(l.st, off, len(typs)))
+		off++
+	}
+	l.skip = strings.Join(skip, " || ")
+	for i, v := range lc.vars {
+		l.pre = append(l.pre, [3]string{leanVar(v), t.env[v].lean(), proj(l.st, off+i, len(typs))})
+	}
+	if up {
+		l.pre = append(l.pre, [3]string{leanVar(iv), "BitVec 64", fmt.Sprintf("BitVec.ofNat 64 (%d + %s)", A, l.k)})
+	} else {
+		l.pre = append(l.pre, [3]string{leanVar(iv), "BitVec 64", fmt.Sprintf("BitVec.ofNat 64 (%d - %s)", A, l.k)})
+	}
+	var after func(i int) node
+	after = func(i int) node {
+		if i == len(lc.vars) {
+			return cont()
+		}
+		v := lc.vars[i]
+		return nLet{leanVar(v), t.env[v].lean(), proj(l.tmp, off+i, len(typs)), after(i + 1)}
+	}
+	if lc.hasRet {
+		rv := fmt.Sprintf("r'%d", t.nj)
+		l.after = nMatch{proj(l.tmp, 0, len(typs)), rv, t.retLeaf(rv), after(0)}
+	} else {
+		l.after = after(0)
+	}
+	return l
 }
 
 // callStmt: calls executed for their effect; returns the variable that is
@@ -1766,7 +2303,11 @@ func (g *gen) emit() (string, string, []string) {
 			}
 		}
 		rts := rt.lean()
-		if f.hasPanic {
+		if f.result != tNone {
+			rts = f.resultLean()
+		}
+		opt := f.hasPanic || f.errRes
+		if opt {
 			rts = "Option (" + rts + ")"
 		}
 		fmt.Fprintf(&b, "/-- `%s` %s (source hash %s)", f.pkg.pathOf[f.file], f.tgt, f.hash)
@@ -1775,6 +2316,9 @@ func (g *gen) emit() (string, string, []string) {
 		}
 		if f.hasPanic {
 			b.WriteString("; `none` = panic")
+		}
+		if f.errRes {
+			b.WriteString("; `none` = a non-nil error is returned")
 		}
 		if len(f.scratch) > 0 {
 			fmt.Fprintf(&b, "; final content of scratch `%s` dropped", strings.Join(f.scratch, ", "))
@@ -1789,7 +2333,7 @@ func (g *gen) emit() (string, string, []string) {
 			fmt.Fprintf(&b, " (%s : %s)", n, p.t.lean())
 		}
 		fmt.Fprintf(&b, " : %s :=\n", rts)
-		printNode(&b, f.body, "  ", f.hasPanic)
+		printNode(&b, f.body, "  ", opt)
 		b.WriteString("\n")
 		fmt.Fprintf(&rep, "translated %-22s %s -> Mpc.Gen.%s\n", f.tgt, f.hash, f.leanName)
 	}
@@ -1844,6 +2388,27 @@ func printNode(b *strings.Builder, n node, ind string, opt bool) {
 		}
 	case nPanic:
 		fmt.Fprintf(b, "%snone\n", ind)
+	case nLoop:
+		fmt.Fprintf(b, "%slet %s : %s :=\n", ind, n.tmp, n.styp)
+		fmt.Fprintf(b, "%s  (List.range %d).foldl (fun (%s : %s) (%s : Nat) =>\n", ind, n.n, n.st, n.styp, n.k)
+		in2 := ind + "    "
+		if n.skip != "" {
+			fmt.Fprintf(b, "%sif %s then %s else\n", in2, n.skip, n.st)
+		}
+		for _, p := range n.pre {
+			fmt.Fprintf(b, "%slet %s : %s := %s\n", in2, p[0], p[1], p[2])
+		}
+		printNode(b, n.body, in2, opt)
+		fmt.Fprintf(b, "%s  ) %s\n", ind, n.init)
+		printNode(b, n.after, ind, opt)
+	case nMatch:
+		// Option.elim instead of `match`: simp/dsimp reduce a match by evaluating its
+		// discriminant (here a 64-step fold)
+		fmt.Fprintf(b, "%sOption.elim (%s)\n%s  (\n", ind, n.scrut, ind)
+		printNode(b, n.b, ind+"    ", opt)
+		fmt.Fprintf(b, "%s  )\n%s  (fun %s =>\n", ind, ind, n.v)
+		printNode(b, n.a, ind+"    ", opt)
+		fmt.Fprintf(b, "%s  )\n", ind)
 	default:
 		panic(fmt.Sprintf("printNode: %T", n))
 	}
